@@ -104,3 +104,24 @@ Qed.
 End Indep.
 Print Assumptions C11_values_invariant_under_conjugate_transpose.
 Print Assumptions C11_null_basis_columns_are_independent.
+
+From QVT Require Import RankProduct.
+(* "rank is invariant under multiplication by invertible matrices": the zero pattern of the sorted singular values -- the exact rank -- of P A is that
+   of A for every P with a left inverse; and no factor at all can increase the number of non-zero singular values *)
+Theorem C11_rank_invariant_under_invertible_factor m n q r (P Pinv Ua Va Ub Vb : qmat RR) (sa sb : nat -> R) :
+  r < q -> meq m m (qmm m Pinv P) qmid ->
+  meq q q (qmm m (qherm Ua) Ua) qmid -> meq q q (qmm n (qherm Va) Va) qmid ->
+  meq q q (qmm m (qherm Ub) Ub) qmid -> meq q q (qmm n (qherm Vb) Vb) qmid ->
+  (forall k, k < q -> (0 <= sa k)%R) -> (forall a b, a <= b -> b < q -> (sa b <= sa a)%R) ->
+  (forall k, k < q -> (0 <= sb k)%R) -> (forall a b, a <= b -> b < q -> (sb b <= sb a)%R) ->
+  meq m n (qmm m P (@usv RR q Ua sa Va)) (@usv RR q Ub sb Vb) ->
+  (sa r = 0%R <-> sb r = 0%R).
+Proof. exact (invertible_factor_keeps_rank m n q r P Pinv Ua Va Ub Vb sa sb). Qed.
+Theorem C11_no_factor_increases_the_rank p m n ra rb r (P Ua Va Ub Vb : qmat RR) (sa sb : nat -> R) :
+  r <= ra -> r < rb ->
+  meq rb rb (qmm p (qherm Ub) Ub) qmid -> meq rb rb (qmm n (qherm Vb) Vb) qmid ->
+  (forall k, k < rb -> (0 <= sb k)%R) -> (forall a b, a <= b -> b < rb -> (sb b <= sb a)%R) ->
+  (forall k, r <= k -> k < ra -> sa k = 0%R) ->
+  meq p n (qmm m P (@usv RR ra Ua sa Va)) (@usv RR rb Ub sb Vb) -> sb r = 0%R.
+Proof. exact (left_factor_cannot_increase_rank p m n ra rb r P Ua Va Ub Vb sa sb). Qed.
+Print Assumptions C11_rank_invariant_under_invertible_factor.
